@@ -214,6 +214,7 @@ def ep_corpus(ctx):
     corpus = inputs.contemporaneous(ctx.seed, k=2 if q else 8) + inputs.polytomies(ctx.seed, k=1 if q else 3) \
         + inputs.historical(ctx.seed, k=1 if q else 3) + inputs.internal_samples(ctx.seed, k=1 if q else 3) \
         + inputs.diploid(ctx.seed, k=1 if q else 3)
+    corpus.append(inputs.with_root_mutations(corpus[0], 3, ctx.seed))
     return corpus
 
 
